@@ -134,6 +134,18 @@ for _pid, _t in EXTRA.items():
     C[_pid]['text'] = C[_pid]['text'] + _t
 for _pid, _t in EXTRA2.items():
     C[_pid]['text'] = C[_pid]['text'] + _t
+EXTRA3 = {
+ 'C02': ' Round 9: the residual bound is per equation - n*tol/(1-tol)*(max(1,|v|) + sum_w |A_vw| max(1,|w|)) over the simultaneous variables the equation reads - and a block with two contractions of very different size is explored; 108 concrete runs with a non-finite exogenous value in a period k>=1 (unused / lagged / used).',
+ 'C05': ' Round 9: one name requested before and after full codes exist, both spellings embedded as terms of one equation / ledger.',
+ 'C07': ' Round 9: three zones, one market buying from the same-code firms of both other zones.',
+ 'C09': ' Round 9: every series read repeatedly through Model.GetTimeSeries with time zero suppressed (concrete).',
+ 'C10': ' Round 9: initial conditions spelled with blanks before the marker.',
+ 'C12': ' Round 9: unbracketed comparison leads followed by added terms.',
+ 'C19': ' Round 9: the table of a solved block after a symbolic history (<= 2) of Model.GetTimeSeries reads (series, time-zero suppression, cut-off) at horizon 1-2.',
+ 'C20': ' Round 9: block variables named like the template placeholders (ITERATOR, MAXTIME, VAR_DECLARATION).',
+}
+for _pid, _t in EXTRA3.items():
+    C[_pid]['text'] = C[_pid]['text'] + _t
 PENDING = {}
 ALL = ['C%02d' % i for i in range(1, 21)]
 checks = []
